@@ -177,8 +177,16 @@ func VH_C04_linear() {
 		nodes[i] = c04NewProbe(m, "next")
 	}
 	flow := NewFlow(nodes[0])
-	for i := 0; i+1 < k; i++ {
-		flow.Connect(nodes[i], "next", nodes[i+1])
+	if vNondet[bool]("wiredDownstreamFirst") {
+		// the order of the Connect calls is immaterial: a chain declared from its end is the same chain
+		vCover("wired-downstream-first")
+		for i := k - 2; i >= 0; i-- {
+			flow.Connect(nodes[i], "next", nodes[i+1])
+		}
+	} else {
+		for i := 0; i+1 < k; i++ {
+			flow.Connect(nodes[i], "next", nodes[i+1])
+		}
 	}
 	// ordinary action labels that merely SOUND like error handling are just labels: a failing node
 	// ends the run, whatever transitions it has
